@@ -218,7 +218,7 @@ def sweep(ctx):
 
     maxc = 6
     ctx.rules.append("controlled gates: ALL control patterns with 1..%d controls x 1..2 targets (structure, exact), values for "
-                     "all patterns with <= 4 controls and a seeded sample of the 5/6-control patterns, exact monomial targets; "
+                     "all patterns with <= 3 controls (thorough: <= 4) and a seeded sample of the larger ones, exact monomial targets; "
                      "nested controlled gates (2-3 levels); multiplexers 1..3 controls x 1..2 targets; phase factors 1..4 wires; "
                      "prepare 1..3 qubits both orientations; every elementary gate class. non-trivial = a network with at "
                      "least one contracted or shared bond (everything except single-tensor wraps)" % maxc)
@@ -237,7 +237,11 @@ def sweep(ctx):
                 net = oracle_gate(ctx, "ctrl", desc, gate, nc + nt)
                 o, onet, exc = obs("ctrl", gate.as_tensornet)
                 add("KCtrl %s %s %s %s" % (ct.z(nc), ct.z(nt), zlist(cs), o), dict(desc, op="structure"))
-                want_val = nc <= 4 or (nt == 1 and rng.random() < (0.25 if ctx.thorough else 0.06))
+                if ctx.thorough:
+                    want_val = nc <= 4 or (nt == 1 and rng.random() < 0.25)
+                else:
+                    want_val = nc <= 3 or (nc == 4 and (nt == 1 or rng.random() < 0.25)) \
+                        or (nc >= 5 and nt == 1 and rng.random() < 0.03)
                 if net is not None and want_val:
                     full = full_tensor(net)
                     if exact(full) and exact(tg.as_matrix()):
